@@ -496,6 +496,8 @@ func (s *Src) Value(_ context.Context, t *dials.Type) (reflect.Value, error) {
 type WSrc struct {
 	Src
 	last reflect.Value
+	// pers is the one value object ReportInPlace keeps, rewrites and re-reports
+	pers reflect.Value
 }
 
 // Watch implements dials.Watcher.
@@ -543,6 +545,21 @@ func (s *WSrc) Report(ctx context.Context, l *Layer, blocking bool) error {
 		return s.WA().BlockingReportNewValue(ctx, v)
 	}
 	return s.WA().ReportNewValue(ctx, v)
+}
+
+// ReportInPlace is a watcher that keeps a single value object: it overwrites that object with the new layer and hands
+// over the same pointer every time (blocking only, so dials is never reading the object while it is rewritten).
+func (s *WSrc) ReportInPlace(ctx context.Context, l *Layer) error {
+	v := l.Materialize(s.Type())
+	s.mu.Lock()
+	if !s.pers.IsValid() || s.pers.Type().Elem() != v.Type() {
+		s.pers = reflect.New(v.Type())
+	}
+	p := s.pers
+	s.last = p
+	s.mu.Unlock()
+	p.Elem().Set(v)
+	return s.WA().BlockingReportNewValue(ctx, p)
 }
 
 // ReReport reports the identical value object of the previous Report again
